@@ -44,6 +44,19 @@ HB_BPMS = [60000, 30000, 45000]     # the suite's own bpm and two others (exact 
 HB_MAXPOS = 16                      # half-beat indices 1..16  (two measures of 4/4)
 
 
+_THR = None
+
+
+def src_thr():
+    """`extend_threshold`'s default as the source has it now (exact value of the double), on the wire"""
+    global _THR
+    if _THR is None:
+        import inspect
+        from reamber.algorithms.timing.utils.reseat_bpm_changes_snap import reseat_bpm_changes_snap
+        _THR = R(Fr(inspect.signature(reseat_bpm_changes_snap).parameters["extend_threshold"].default))
+    return _THR
+
+
 def _imports():
     logging.getLogger().setLevel(logging.ERROR)
     from reamber.base.RAConst import RAConst
@@ -359,6 +372,7 @@ def tl_close(a, b):
 def run(case, drv):
     RAConst, TimingMap, BpmChangeSnap, Snap = _imports()
     claim, mode, cs = case["claim"], case["mode"], case["cs"]
+    THR = src_thr()
     t0 = num(case["t0"], mode)
     t0x = R(Fr(t0))
     jcs = exact_cs(cs, mode)
